@@ -51,3 +51,8 @@ ENTRIES += [
     N('redirect-hop-looked-up', "            if not verdict:\n                self._item_session.skip()\n                break\n\n            exit_early, wait_time",
       "            if not verdict:\n                self._item_session.skip()\n                break\n\n            if self._item_session.app_session.factory['URLTable'].contains(self._item_session.request.url_info.url):\n                _logger.debug('hop known')\n\n            exit_early, wait_time", W),
 ]
+
+ENTRIES += [
+    B('regress-prefilter-judges-parent', "            if not self._fetch_rule.consult_filters(url_info, child_url_record)[0]:", "            if not self._fetch_rule.consult_filters(item_session.request.url_info, child_url_record)[0]:", 'C01-D2', R),
+    N('prefilter-verdict-local', "            if not self._fetch_rule.consult_filters(url_info, child_url_record)[0]:\n                continue\n", "            verdict = self._fetch_rule.consult_filters(url_info, child_url_record)[0]\n\n            if not verdict:\n                continue\n", R),
+]
